@@ -9,6 +9,6 @@ CONSTANTS
   MaxSnaps = 1
   MaxStmts = 3
   McAlphabet = "small"
-  WithFollower = TRUE
+  Reduced = FALSE
 VIEW McView
 INVARIANTS Converge
